@@ -198,6 +198,7 @@ func checkAztecRoundTrip(t TB, st *Stats, c AztecCase) *ref.AztecResult {
 		failf(t, P, K, c, "%v", merr)
 	}
 	res, derr := ref.DecodeAztec(m)
+	colourVariant(t, P, K, c, EncSpec{Fam: "aztec", Content: c.Payload, A: c.ECC, B: c.Layers}, m)
 	if derr != nil {
 		failf(t, P, K, c, "reference reader: %v", derr)
 	}
